@@ -11,10 +11,18 @@ const ID_SEP: &str = ":";
 
 #[allow(unused)]
 pub fn longid() -> String {
+    #[cfg(feature = "verif")]
+    if let Some(v) = crate::verif::next_long_id() {
+        return v;
+    }
     nanoid!(21, &ALPHABETS)
 }
 
 pub fn shortid() -> String {
+    #[cfg(feature = "verif")]
+    if let Some(v) = crate::verif::next_short_id() {
+        return v;
+    }
     nanoid!(8, &ALPHABETS)
 }
 
